@@ -44,9 +44,14 @@ def run(chk, tier, seed):
             chk.violations.append((fail, {"input": D.describe(U, m), "harness_line": line, "observed": o[:600], "seed": seed, "tier": tier}))
         chk.distinct.add((D.shape_key(t), m["container"]))
     chk.add_eval(len(meta))
+    # library types outside the universe: round trips in every container, bytes against Ty.enc of the equivalent term
+    from . import libcases
+    libcases.run_rt(chk, binary)
     chk.cov["rule"] = ("every (root type, value, container, version) of the generated universe (fixed boundary corpus + seeded random "
                        "definitions) is saved and loaded by the real code; bytes, consumed count and loaded value are compared with enc/dec/norm "
-                       "evaluated in Coq; distinct = (structural type key, container)")
+                       "evaluated in Coq; distinct = (structural type key, container). Plus a fixed corpus of ~70 library-type values outside the universe "
+                       "(maps, sets, heaps, deques, index maps, small/array vectors, net/time types, smart pointers, cells, locks, atomics, tuples, nested): saved and loaded in all five "
+                       "containers, compared with the Rust-side equality (hash containers as sets, floats by bits), and their bytes with Ty.enc/dec of the equivalent model term")
     for cid in list(meta)[:4]:
         chk.sample({"case": cid, "input": D.describe(U, meta[cid]), "observed": obs.get(cid, "")[:160]})
 
